@@ -132,7 +132,7 @@ static std::vector<u64> hashes( u64 seed, bool thorough )
             if ( thorough || ( i + d ) % 3 == 0 )
                 if ( i + D[d] < 64 ) H.push_back(( 1ULL << i ) | ( 1ULL << ( i + D[d] )));
     Rng r( seed * 0x2545F4914F6CDD1DULL + 27 );
-    int n = thorough ? 12000 : 500;
+    int n = thorough ? 12000 : 1500;
     for ( int i = 0; i < n; ++i ) {
         u64 x = r.next();
         switch ( i % 4 ) {                                                           // vary the magnitude
